@@ -14,12 +14,12 @@ CLAIMS = {
  'C02': dict(
    text='Binding audit of validate / verify_signature_with_verifier / parse_jwk / verify_decoded_signature plus semantic evaluation of the validation-unit iterator '
         'chain of validate_decoded_credential over all unit outcomes, fail-fast modes and option presences (222 paths): accepted iff every unit passed, errors identify failures.',
-   note='Trusted as C01. Outside: JSON, crypto, bodies of check_structure / subject-holder / status units, resolve_method (C04).',
+   note='Trusted as C01. Includes the credential check_consistency audit (every member repeated inside vc agrees with its registered claim). Outside: JSON, crypto, bodies of check_structure / subject-holder / status units, resolve_method (C04).',
    technique=TECH_M, ref='DESIGN.md section 2 C02'),
  'C03': dict(
    text='Binding audit of JwtPresentationValidator::validate (all 100+ paths, closures inlined) and CoreDocument::verify_jws: accepted only with verify_jws on the holder '
         'document, iss == document id, inclusive exp/issuance bounds against the right options, consistency conversion, returned values are the signed ones.',
-   note='Trusted as C01. Outside: JSON, crypto, check_consistency body (C07), resolve_method (C04).',
+   note='Trusted as C01. Includes the vp.id/vp.holder consistency audit of PresentationJwtClaims::check_consistency. Outside: JSON, crypto, resolve_method (C04).',
    technique=TECH_M, ref='DESIGN.md section 2 C03'),
  'C04': dict(
    text='M: one inductive step of every checked mutator and resolver of CoreDocument from an arbitrary document (sets opaque): which of the seven sets is touched '
@@ -29,7 +29,7 @@ CLAIMS = {
    technique=TECH_M, ref='DESIGN.md section 2 C04'),
  'C05': dict(
    text='M panic-reachability sweep: 46 parsing / decoding / validating entry points executed symbolically from MIR with callee results unconstrained; every MIR assert '
-        '(overflow, index, slice) and every unwrap/expect on a callee outcome is a panic outcome; reachable ones must be on the explicit contract list (each with the '
+        '(overflow, index, slice), every unwrap/expect on a callee outcome and every panic-capable std callee (Index/IndexMut, split_at, copy_from_slice, Vec/String index operations, date-time arithmetic, RefCell) whose precondition the path does not imply is a panic outcome; same-file helpers are inlined; reachable ones must be on the explicit contract list (each with the '
         'obligation establishing it). Complements the precise panic-freedom obligations of C12 (status list) and the K range-gate harnesses of C13.',
    note='Trusted as C01. Outside: panics inside non-inlined third-party callees (serde_json, did_url_parser, time, url, flate2, roaring), serde derives, SD-JWT VC.',
    technique=TECH_M, ref='DESIGN.md section 2 C05'),
@@ -98,6 +98,13 @@ CLAIMS = {
         'thumbprint template = RFC 7638/8037 required members in lexicographic order, VerificationMethod::from_builder rejects non-public JWKs.',
    note='Trusted as C01. Outside: serde untagged deserialisation, SHA-256, generated keys, member values.',
    technique=TECH_M, ref='DESIGN.md section 2 C18'),
+ 'C19': dict(
+   text='K: OrderedSet<u8> append / prepend / remove as one inductive step from every duplicate-free state of the concrete length in the harness name (append, remove <= 3; prepend <= 2) with '
+        'arbitrary arguments against a list model, TryFrom<Vec>/FromIterator on 3 arbitrary elements; M: OneOrSet::new_set / map / try_map and OneOrMany::from<Vec> normalisation, '
+        'OneOrSet array deserialisation through the duplicate-rejecting constructor plus non-emptiness, OrderedSet derived Deserialize through TryFrom<Vec>, and OrderedSet::change '
+        '(replace/update) restricted to order-preserving vector operations (binding audit; its full list semantics is out of CBMC reach: 20-30 minute caps at length 1).',
+   note='Trusted as C01 plus Kani/CBMC. Outside: sets longer than the harness length, replace/update list semantics beyond the binding audit and the native battery, serde text forms, OneOrSet::append / OneOrMany::push.',
+   technique='Kani/CBMC bounded model checking of one inductive step per operation + ' + TECH_M, ref='DESIGN.md section 2 C19'),
  'C16': dict(
    text='Binding audit of validate_key_binding_jwt (171 blocks, 100+ paths: typ, holder key in scope, signature, sd_hash, nonce, aud, iat window, no reachable panic), '
         'SD-JWT verify_signature (signature before disclosures, decoded claims feed the credential, issuer == kid DID) and validate_credential (same units as plain JWTs).',
